@@ -82,7 +82,7 @@ def get(variant, scalar="double", kind="own", mode="funcs", ndebug=False, entrie
     tag = "%s_%s_%s_%s_%s%s" % (variant, scalar, kind, mode, "ndebug" if ndebug else "debug", tag_extra)
     if key in _mem:
         return _mem[key]
-    d = C.ensure_dir(os.path.join(C.BUILD, "facts"))
+    d = C.ensure_dir(os.path.join(C.WORK, "facts"))
     out = os.path.join(d, "%s.%s.json" % (tag, key))
     if not os.path.exists(out):
         for old in os.listdir(d):
